@@ -1,5 +1,6 @@
 \* C06 behaviour generation: 3 nodes, 2 ids, clock 0..5, retention 2 s, T = 2, up to 8 CAS and 4
-\* faults, blocking watchers on nodes 1 and 2.
+\* faults, blocking watchers on nodes 1 and 2, gated workers (channel capacity 1) on nodes 2 and 3;
+\* about a quarter of the behaviours start with the relay script.
 CONSTANTS
   N = 3
   NI = 2
@@ -15,6 +16,11 @@ CONSTANTS
   AllowGarbage = TRUE
   AllowPartition = TRUE
   AllowJunkPP = TRUE
+  GateNodes = {2, 3}
+  InboxCap = 1
+  VersionTest = TRUE
+  MaxDel = 0
+  ObsoleteTimeout = 1
   ConsumeNet = FALSE
   Ideal = TRUE
   Ghost = TRUE
@@ -24,6 +30,6 @@ CONSTANTS
   QRounds = 2
 INIT Init
 NEXT SimNext
-INVARIANTS TypeOK TombstonesInvisible NoInventedContent WatcherNeverStale QuiescentOK EmitDone
-PROPERTIES TombstonesForwarded NoResurrection GCOnlyExpired NoExpiredTombstoneStored OnlyChangesForwarded
+INVARIANTS TypeOK TombstonesInvisible NoInventedContent WatcherNeverStale PrefixWatcherNeverStale QuiescentOK EmitDone
+PROPERTIES TombstonesForwarded NoResurrection GCOnlyExpired NoExpiredTombstoneStored OnlyChangesForwarded DeletedStaysDeleted RemovedOnlyWhenObsolete DeletedNotRevived
 CHECK_DEADLOCK FALSE
